@@ -1,7 +1,7 @@
 (* C12 - File name, stem and extension decompose the last component. *)
 From Coq Require Import List NArith Bool.
 Import ListNotations.
-From TP Require Import Core Path Unix Win Spec UnixProofs WinProofs C11Proofs C12Proofs.
+From TP Require Import Core Path Unix Win Spec UnixProofs WinProofs C11Proofs C12Proofs Win GenJoin WinSimple WinExtend C12Win WinVerbJoin WinVerbMore WinTrunc WinFileName.
 
 (* file_name is the last component when it is a normal name, absent otherwise *)
 Theorem C12_unix_file_name : forall p : list N,
@@ -55,8 +55,45 @@ Print Assumptions C12_unix_replace.
 Print Assumptions C12_unix_replace_file_name.
 Print Assumptions C12_unix_replace_parent.
 Print Assumptions C12_unix_no_file_name_is_join.
-(* C12_windows_replace_partial: the Windows replacement (pop, then the Windows push) is decided by
-   oracle_c12 on every explored (path, name) pair. *)
+(* Windows: the replacement is pop, then the Windows push.  Without a file name it is the join; with one, and
+   a parent that is prefix-free and non-empty or carries a UNC / device / drive prefix followed by a non-empty
+   rest, the result read again from scratch has the old components with the last replaced by n (C12Win.v, over
+   WinTrunc.w_parent_reparse and WinExtend.wspec_join_prefixed) *)
+Theorem C12_windows_no_file_name_is_join : forall p n : list N,
+  w_file_name p = None -> w_set_file_name p n = w_push p n.
+Proof. exact w_set_file_name_none. Qed.
+Theorem C12_windows_replace : forall l m n rr : list N, w_file_name l = Some m -> w_parent l = Some rr -> joinable rr ->
+  noprefix n = true -> gn (wsep true) n ->
+  w_set_file_name l n = w_push rr n /\
+  wspec (w_set_file_name l n) = removelast (wspec l) ++ [WC (Normal n)].
+Proof. exact w_set_file_name_some. Qed.
+Print Assumptions C12_windows_no_file_name_is_join.
+Print Assumptions C12_windows_replace.
+Example C12_windows_example :
+  w_file_name [92;92;115;92;104;92;100;92;102;46;116] = Some [102;46;116]                  (* \\s\h\d\f.t *)
+  /\ w_parent [92;92;115;92;104;92;100;92;102;46;116] = Some [92;92;115;92;104;92;100]
+  /\ wprefix_grammar [92;92;115;92;104;92;100] = Some (UNC [115] [104], [92;100])
+  /\ w_set_file_name [92;92;115;92;104;92;100;92;102;46;116] [103] = [92;92;115;92;104;92;100;92;103].
+Proof. vm_compute. repeat split. Qed.
+(* ... and with a parent that carries a verbatim prefix followed by a root (WinVerbJoin.v) *)
+Theorem C12_windows_replace_verbatim : forall (l m n rr : list N) (k : wprefix) (r : list N),
+  w_file_name l = Some m -> w_parent l = Some rr ->
+  wprefix_grammar rr = Some (k, r) -> k_verbatim k = true -> k <> Verbatim [85; 78; 67] -> sep_headed (s_wsep (s_norm rr)) r ->
+  noprefix n = true -> gn (wsep true) n ->
+  w_set_file_name l n = w_push rr n /\
+  wspec (w_set_file_name l n) = removelast (wspec l) ++ [WC (Normal n)].
+Proof. exact w_set_file_name_some_verbatim. Qed.
+Print Assumptions C12_windows_replace_verbatim.
+(* hence, whenever the replacement reads back that way: the file name is n and the parent, read again, has the
+   components of the old parent (for every prefix kind, via the re-parse theorem of C09) *)
+Theorem C12_windows_replace_file_name_parent : forall l l' m : list N,
+  wspec l' = removelast (wspec l) ++ [WC (Normal m)] ->
+  w_file_name l' = Some m /\
+  (forall r r', w_parent l = Some r -> w_parent l' = Some r' -> wspec r' = wspec r).
+Proof. exact w_replaced_last. Qed.
+Print Assumptions C12_windows_replace_file_name_parent.
+(* C12_windows_replace_partial: for a parent that is a bare prefix, or the verbatim prefix named "UNC", the
+   Windows replacement is decided by oracle_c12 on every explored (path, name) pair. *)
 
 Example C12_example : u_file_stem [47;97;46;116;97;114;46;103;122;47] = Some [97;46;116;97;114]
                       /\ u_extension [47;97;46;116;97;114;46;103;122;47] = Some [103;122]
